@@ -173,6 +173,10 @@ def degenerate_spectrum(m, k, rel=1e-7):
 # ----------------------------------------------------------------------------- base case
 class Case:
     arpack_degenerate = False
+
+    def is_arpack_degenerate(self, ids):
+        return False
+
     rowwise = True
     tol = 1e-8
     exact = False
@@ -572,13 +576,18 @@ class CFCCase(_MatrixCase):
         c.desc.update(params=dict(c.params))
         # ARPACK (scipy svds) is not reproducible on a degenerate spectrum -- rank below k, or equal singular values
         # at / above the cut: it restarts from its own internal random vector, whatever random_state is given
-        # (see known_findings.json).  The adapter computes the spectrum of the drawn training matrix.
-        tr = c.base[c.train_ids].toarray()
-        nrm = np.sqrt((tr ** 2).sum(axis=1, keepdims=True))
-        nrm[nrm == 0] = 1.0
-        c.arpack_degenerate = c.params["algorithm"] == "arpack" and degenerate_spectrum(np.sqrt(tr / nrm), c.params["n_components"])
+        # (see known_findings.json).  The adapter computes the spectrum of the training matrix actually used.
+        c.arpack_degenerate = c.is_arpack_degenerate(c.train_ids)
         c.desc["arpack_degenerate_spectrum"] = c.arpack_degenerate
         return c
+
+    def is_arpack_degenerate(self, ids):
+        if self.params["algorithm"] != "arpack":
+            return False
+        tr = self.base[list(ids)].toarray()
+        nrm = np.sqrt((tr ** 2).sum(axis=1, keepdims=True))
+        nrm[nrm == 0] = 1.0
+        return degenerate_spectrum(np.sqrt(tr / nrm), self.params["n_components"])
 
 
 class SlidingWindowCase(Case):
@@ -650,6 +659,15 @@ class WassersteinCase(Case):
             c.vectors[c.n_vec - 1] *= 512.0
         n_rows = tape.between("ot.nrows", 7, 13)
         c.base = draw_counts(tape, "ot.dist", n_rows, c.n_vec, min(4, c.n_vec), allow_empty_row=False)
+        # some consecutive rows share their support but not their weights (same points, different masses)
+        if tape.chance("ot.same_support", 1, 3):
+            b = c.base.tolil()
+            for i in range(1, n_rows):
+                if tape.chance("ot.copy_support", 1, 3):
+                    cols = b.rows[i - 1]
+                    b.rows[i] = list(cols)
+                    b.data[i] = [float(1 + tape.draw("ot.cnt2", 6)) for _ in cols]
+            c.base = b.tocsr()
         c.pool = list(range(n_rows))
         ntrain = tape.between("ot.ntrain", 5, n_rows - 1)
         c.train_ids = list(range(ntrain))
@@ -707,15 +725,19 @@ class WassersteinCase(Case):
             c.user_reference = False
             c.knobs = {}
         c.in_format = tape.weighted("ot.fmt", [(3, "csr"), (1, "dense")]) if c.input_method == "spmatrix" else c.input_method
-        if (not c.user_reference) and which in ("W-exact-spmatrix", "W-sinkhorn", "Sinkhorn"):
-            # the reference centre comes from svds(X, k=1): not unique when the two largest singular values coincide
-            tr = c.base[c.train_ids].toarray().astype(np.float64)
-            tr = tr / np.maximum(tr.sum(axis=1, keepdims=True), 1e-300)
-            c.arpack_degenerate = degenerate_spectrum(tr, 1)
+        c.arpack_degenerate = c.is_arpack_degenerate(c.train_ids)
         c.desc.update(params=dict(c.params), n_vectors=c.n_vec, dim=c.dim, n_rows=n_rows, ntrain=ntrain,
                       rows_per_block=rows_per_block, user_reference=c.user_reference, in_format=c.in_format,
                       use_cachedir=c.use_cachedir, arpack_degenerate_spectrum=c.arpack_degenerate, far_outlier_vector=c.outlier)
         return c
+
+    def is_arpack_degenerate(self, ids):
+        if self.user_reference or self.which not in ("W-exact-spmatrix", "W-sinkhorn", "Sinkhorn"):
+            return False
+        # the reference centre comes from svds(X, k=1): not unique when the two largest singular values coincide
+        tr = self.base[list(ids)].toarray().astype(np.float64)
+        tr = tr / np.maximum(tr.sum(axis=1, keepdims=True), 1e-300)
+        return degenerate_spectrum(tr, 1)
 
     def ctor_kwargs(self, pobjs):
         kw = dict(self.params)
